@@ -51,6 +51,46 @@ Before you finish: run demo.py on the unpatched tree (switch with `git -C {wt} a
 (a genuine existing bug), say so in your final summary with the input - that is valuable, but still deliver the seed. Finish with a 3-line summary. If you cannot find a change that meets all points
 within reasonable effort, say so plainly rather than delivering something weaker.
 '''
+BENIGN='''# Task: a behaviour-preserving refactoring of the code behind property {pid} of CQCL/guppylang
+
+You work ONLY inside your own scratch git worktree of the repository: `{wt}` (a checkout of the repository's
+current HEAD). Do not read or write anything under /repo or /verif. Work economically.
+
+## The property (given, fixed) - it must KEEP holding
+
+**{pid} - {title}**
+
+Statement: {statement}
+
+Quantified over: {quant}
+
+Code anchors: files {files}; mechanisms: {mech}
+
+## What to produce
+
+A realistic REFACTORING of the anchored code (15-60 changed lines over 1-3 functions) of the kind maintainers do all
+the time and that does NOT change behaviour: rename locals and private helpers, extract or inline a helper function,
+early returns instead of nested ifs (or the reverse), comprehension <-> explicit loop, `match` <-> if/elif chain,
+De Morgan / reordered independent statements / reordered commutative conditions, a table instead of repeated
+branches, walrus introduced or removed, try/except <-> contextlib.suppress, dataclasses.replace <-> constructor call,
+local aliases for long attribute chains, type annotations and comments changed, constants hoisted.
+Be thorough about equivalence: same results, same exceptions, same order of side effects, for ALL inputs.
+
+How to run the sources of your worktree (the installed guppylang in site-packages is a different, newer version):
+
+    PYTHONPATH=/tmp/shim:{wt}/guppylang/src:{wt}/guppylang-internals/src /venv/bin/python your_script.py
+
+`.check()` works; `.compile()` fails at a late unrelated packaging step in this sandbox. No network; install nothing.
+NEVER use `git stash` (it is shared between worktrees); switch states with `git apply -R` / `git apply`.
+
+Deliverables, in `/tmp/benign/{pid}/{k}/` (create the directory):
+  * `patch.diff` - `git -C {wt} diff` of your refactoring (source files only)
+  * `demo.py`    - a script (run as shown above) that exercises the refactored code on a good range of inputs related to
+                   the property and prints what it observes; it must print EXACTLY the same output and exit 0 on the
+                   unpatched and on the patched tree (run both and compare the outputs yourself).
+  * `meta.json`  - {{"summary": "<what was refactored and why it is equivalent>", "files_changed": [...]}}
+Leave the worktree in the patched state. Finish with a 3-line summary.
+'''
 AVOID={
  'C01':'changing the `not v.ty.droppable` filter of compile_bb to `v.ty.linear`',
  'C10':'re-introducing set.pop()/set iteration in check_rows_match, the analysis worklists, check_call, monomorphization errors or struct parsing',
@@ -125,5 +165,10 @@ wt=f'/tmp/wt/{pid}-{k}'
 a=p['anchors']
 txt=TEMPLATE.format(pid=pid,k=k,wt=wt,title=p['title'],statement=p['statement'],quant=p['quantifier']['text'],why=p['why_tests_cant'],
   files=', '.join(a['files']), mech='; '.join(m['name'] for m in a.get('mechanism',[])), avoid=AVOID.get(pid,'(none)')+'; '+AVOID2.get(pid,'')+'; '+AVOID3.get(pid,''), focus=focus, persona=persona)
-open(f'/tmp/seedprompt/{pid}-{k}.md','w').write(txt)
+if len(sys.argv)>5 and sys.argv[5]=='benign':
+    txt=BENIGN.format(pid=pid,k=k,wt=wt,title=p['title'],statement=p['statement'],quant=p['quantifier']['text'],
+      files=', '.join(a['files']), mech='; '.join(m['name'] for m in a.get('mechanism',[])))
+    open(f'/tmp/seedprompt/{pid}-b{k}.md','w').write(txt)
+else:
+    open(f'/tmp/seedprompt/{pid}-{k}.md','w').write(txt)
 print(wt)
